@@ -12,3 +12,7 @@ import SwcVerif.Props.C11
 #print axioms C11.concentric_scale_eps0
 #print axioms C11.concentric_scale_counterexample
 #print axioms C11.exitT_scale
+#print axioms C11.edgeDot_from_distances
+#print axioms C11.angle_invariant_of_isometry
+#print axioms C11.rigid_preserves_angles
+#print axioms C11.angle_data_scale
